@@ -12,7 +12,8 @@ RULE = ("cases are trees: generator-valid EML trees with 1-6 independently plant
         "arbitrary foreign subtrees; free-form trees; corpus mutations. For each tree: validate.tree in both modes, "
         "validate.node on every node not below a metadata element, a spy recording the validate.node calls made by "
         "validate.tree, and a re-run after the content of every metadata element was replaced. distinct = distinct tree "
-        "values; non-trivial = trees with at least two judged nodes")
+        "values; non-trivial = trees with at least two judged nodes"
+        ". Also: echo plants (an earlier node made to report what a later node's error mentions), id strings repeated along paths, import-like decorations, an attribute list with thousands of errors, foreign names with nested children")
 ASSUMPTIONS = [
     "error tuples are compared by code, message, node identity and details",
     "'below a metadata element' = proper descendants of a node named metadata; the metadata node itself is judged",
